@@ -58,6 +58,11 @@ def cases(tier, seed):
     # query -> in-place edit -> query histories (stale memoisation would show here)
     for m in sp.structures_upto(4 if tier == 'quick' else 5):
         yield ('E', m)
+    for t in list(cm.k1()) + list(cm.k2_subset()):
+        yield ('E', cm.on_carrier([t]))
+    for t1 in _rep_trees()[::3]:
+        for t2 in _rep_trees()[::3]:
+            yield ('E', cm.on_carrier([t1, t2]))
     # constraint lists on a carrier
     singles = list(cm.k1()) + list(cm.arith_trees()) + list(cm.onearg_aggregate_trees()) + list(cm.k2_subset())
     for t in singles:
@@ -346,12 +351,112 @@ def inplace_edits(model):
                                 if not rel.children:
                                     old_parent.relations.remove(rel)
                                 else:
-                                    rel.card_max = min(rel.card_max, len(rel.children))
-                                    rel.card_min = min(rel.card_min, rel.card_max)
+                                    if rel.card_max == -1:
+                                        rel.card_min = min(rel.card_min, len(rel.children))
+                                    else:
+                                        rel.card_max = min(rel.card_max, len(rel.children))
+                                        rel.card_min = min(rel.card_min, rel.card_max)
                         newp = fm.get_feature_by_name(target)
                         newp.add_relation(Relation(newp, [obj], card[0], card[1]))
                     em = (sh._replace_feature(base, list(path2), lambda h, leafsh=f, card=card: (h[0], h[1] + ((card[0], card[1], (leafsh,)),), h[2], h[3], h[4], h[5])), model[1])
                     out.append(('move %s under %s as [%d,%d]' % (f[0], g[0], card[0], card[1]), move, em))
+    # remove a leaf that no constraint mentions (the relation shrinks or disappears)
+    mentioned = set(n for _c, t in model[1] for n in sh.tree_names(t))
+    for path, f in sh._paths(root):
+        if path and not f[1] and f[0] not in mentioned:
+            def remove(fm, leaf=f[0]):
+                obj = fm.get_feature_by_name(leaf)
+                old_parent = obj.get_parent()
+                for rel in list(old_parent.get_relations()):
+                    if any(c is obj for c in rel.children):
+                        rel.children.remove(obj)
+                        if not rel.children:
+                            old_parent.relations.remove(rel)
+                        elif rel.card_max == -1:
+                            rel.card_min = min(rel.card_min, len(rel.children))
+                        else:
+                            rel.card_max = min(rel.card_max, len(rel.children))
+                            rel.card_min = min(rel.card_min, rel.card_max)
+                obj.parent = None
+            out.append(('remove %s' % f[0], remove, (sh._replace_feature(root, list(path), lambda _g: None), model[1])))
+    out.extend(ctc_edits(model))
+    # a second FeatureModel over a sub-tree of this one (shares the Feature objects): constructing
+    # it must leave this model as it is
+    for path, f in sh._paths(root):
+        if path:
+            def view(fm, name=f[0]):
+                from flamapy.metamodels.fm_metamodel.models import FeatureModel
+                FeatureModel(fm.get_feature_by_name(name))
+            out.append(('construct a FeatureModel on the sub-tree of %s' % f[0], view, model))
+    return out
+
+
+def _tree_paths(tree, prefix=(), depth=3):
+    yield prefix, tree
+    if isinstance(tree, tuple) and depth > 0:
+        for side, sub in (('L', tree[1]), ('R', tree[2])):
+            if sub is not None:
+                yield from _tree_paths(sub, prefix + (side,), depth - 1)
+
+
+def _tree_replace(tree, path, new):
+    if not path:
+        return new
+    op, left, right = tree
+    if path[0] == 'L':
+        return (op, _tree_replace(left, path[1:], new), right)
+    return (op, left, _tree_replace(right, path[1:], new))
+
+
+def _node_at(fm, ci, path):
+    n = fm.ctcs[ci].ast.root
+    for side in path:
+        n = n.left if side == 'L' else n.right
+    return n
+
+
+def ctc_edits(model):
+    """In-place edits of the Node objects of the model's constraints (the Constraint and AST objects
+    stay the same): a leaf gets another feature name, a binary operator is exchanged, an operand is
+    replaced by a fresh leaf."""
+    out = []
+    if bd.SHARE['on']:
+        return out      # shared Node objects: an edit of one occurrence would change the others too
+    names = sh.names(model)
+    for ci, (cname, tree) in enumerate(model[1]):
+        if not all(o in sh.LOGICAL for o in sh.tree_ops(tree)):
+            continue
+        for path, sub in _tree_paths(tree):
+            if isinstance(sub, str):
+                others = [n for n in names if n != sub]
+                if not others:
+                    continue
+                new = others[-1]
+
+                def relabel(fm, ci=ci, path=path, new=new):
+                    _node_at(fm, ci, path).data = new
+                out.append(('constraint %s: leaf %s at %s becomes %s' % (cname, sub, ''.join(path) or 'root', new), relabel,
+                            (model[0], model[1][:ci] + ((cname, _tree_replace(tree, path, new)),) + model[1][ci + 1:])))
+            elif isinstance(sub, tuple) and sub[0] in sh.BINARY_LOGICAL:
+                newop = 'OR' if sub[0] != 'OR' else 'AND'
+
+                def reop(fm, ci=ci, path=path, newop=newop):
+                    from flamapy.core.models.ast import ASTOperation
+                    _node_at(fm, ci, path).data = ASTOperation[newop]
+                out.append(('constraint %s: operator %s at %s becomes %s' % (cname, sub[0], ''.join(path) or 'root', newop), reop,
+                            (model[0], model[1][:ci] + ((cname, _tree_replace(tree, path, (newop, sub[1], sub[2]))),) + model[1][ci + 1:])))
+                if path:
+                    leaf = names[0]
+
+                    def prune(fm, ci=ci, path=path, leaf=leaf):
+                        from flamapy.core.models.ast import Node
+                        parent = _node_at(fm, ci, path[:-1])
+                        if path[-1] == 'L':
+                            parent.left = Node(leaf)
+                        else:
+                            parent.right = Node(leaf)
+                    out.append(('constraint %s: operand at %s replaced by leaf %s' % (cname, ''.join(path), leaf), prune,
+                                (model[0], model[1][:ci] + ((cname, _tree_replace(tree, path, leaf)),) + model[1][ci + 1:])))
     return out
 
 
@@ -370,6 +475,22 @@ def _check_edits(model):
             raise AssertionError('in-place edit did not give the expected model: %s' % what)
         after = [f for f in _oracle(fm, em, 'A') if f.clause != 'relation-class-count' or
                  not any(sem.kind(a, b, len(k)) is None for (_p, a, b, k) in sh.relations(em))]
+        if not after and em[1]:
+            # differential: the constraint-kind listings of the edited object and of a freshly built
+            # model of the same (edited) shadow must select the same constraints
+            fresh = bd.build(em)
+            for meth in ('get_simple_constraints', 'get_complex_constraints', 'get_pseudocomplex_constraints',
+                         'get_strictcomplex_constraints', 'get_requires_constraints', 'get_excludes_constraints'):
+                try:
+                    a = [i for i, c in enumerate(fm.ctcs) if any(g is c for g in getattr(fm, meth)())]
+                    b = [i for i, c in enumerate(fresh.ctcs) if any(g is c for g in getattr(fresh, meth)())]
+                except Exception:  # noqa: BLE001   (raising listings are reported by the oracle above)
+                    continue
+                engine.tick(2)
+                if a != b:
+                    after.append(Fail('model.' + meth, {'edited object': a, 'fresh model of the same content': b,
+                                                        'ctcs': [sh.tree_str(t) for _n, t in em[1]]}))
+                    break
         for f in after:
             f.clause = 'after-inplace-edit:' + f.clause
             f.detail = {'edit': what, 'info': f.detail}
